@@ -6,6 +6,7 @@ package transformer
 
 import (
 	openfgav1 "github.com/openfga/api/proto/openfga/v1"
+	"strings"
 
 	"github.com/openfga/language/pkg/go/zzverif"
 )
@@ -160,5 +161,96 @@ func VerifC14_ManyRelations() {
 	}
 	expected += "\n"
 	zzverif.Assert(text == expected, "relations-in-documented-order")
+	zzverif.Reach("printed")
+}
+
+// VerifC14_ParamOrder: the parameters of a condition are printed in order by name - names over an
+// alphabet that straddles ':' in the byte order (digits and '-' sort before it, letters and '_' after),
+// so that "sorted by name" and "sorted by rendered entry" differ when one name is a prefix of another.
+func VerifC14_ParamOrder() {
+	n := zzverif.Param("N", 2)
+	var names []string
+	params := map[string]*openfgav1.ConditionParamTypeRef{}
+	k := 2 + zzverif.Choose("parameters", 2)
+	for i := 0; i < k; i++ {
+		name := zzverif.Str("param", 1, n, "a1_-")
+		for _, o := range names {
+			zzverif.Assume(name != o)
+		}
+		names = append(names, name)
+		params[name] = &openfgav1.ConditionParamTypeRef{TypeName: openfgav1.ConditionParamTypeRef_TYPE_NAME_INT}
+	}
+	m := &openfgav1.AuthorizationModel{SchemaVersion: "1.1", TypeDefinitions: []*openfgav1.TypeDefinition{{Type: "user"}},
+		Conditions: map[string]*openfgav1.Condition{"c": {Name: "c", Expression: "true", Parameters: params}}}
+	text, err := TransformJSONProtoToDSL(m)
+	zzverif.Assert(err == nil, "model-prints")
+	if err != nil {
+		return
+	}
+	mSortStrings(names)
+	want := "condition c("
+	for i, p := range names {
+		if i > 0 {
+			want += ", "
+		}
+		want += p + ": int"
+	}
+	want += ") {"
+	zzverif.Assert(strings.Contains(text, want), "parameters-in-order-by-name")
+	zzverif.Reach("printed")
+}
+
+// VerifC14_CondOrder: three conditions, each attributed to a (symbolic) module and file or not: printed
+// unattributed first, then by module, file, name - under every iteration order of the conditions map.
+func VerifC14_CondOrder() {
+	n := zzverif.Param("N", 1)
+	type cnd struct{ name, module, file string }
+	var cs []cnd
+	conds := map[string]*openfgav1.Condition{}
+	anyModule := false
+	for i := 0; i < 3; i++ {
+		c := cnd{name: zzverif.Str("cond", 1, n, verifNameAlphabet)}
+		for _, o := range cs {
+			zzverif.Assume(c.name != o.name)
+		}
+		cd := &openfgav1.Condition{Name: c.name, Expression: "true", Parameters: map[string]*openfgav1.ConditionParamTypeRef{"x": {TypeName: openfgav1.ConditionParamTypeRef_TYPE_NAME_INT}}}
+		if zzverif.Choose("attributed", 2) == 1 {
+			c.module, c.file = zzverif.Str("module", 1, n, verifFileAlphabet), zzverif.Str("file", 0, n, verifFileAlphabet)
+			cd.Metadata = &openfgav1.ConditionMetadata{Module: c.module, SourceInfo: verifSrc(c.module, c.file)}
+			anyModule = true
+		}
+		cs = append(cs, c)
+		conds[c.name] = cd
+	}
+	zzverif.Assume(anyModule)
+	td := &openfgav1.TypeDefinition{Type: "user", Metadata: &openfgav1.Metadata{Module: "core", SourceInfo: verifSrc("core", "core.fga")}}
+	text, err := TransformJSONProtoToDSL(&openfgav1.AuthorizationModel{SchemaVersion: "1.2", TypeDefinitions: []*openfgav1.TypeDefinition{td}, Conditions: conds})
+	zzverif.Assert(err == nil, "modular-model-prints")
+	if err != nil {
+		return
+	}
+	// documented order: unattributed first, then module, file, name (insertion sort on the three)
+	less := func(a, b cnd) bool {
+		if (a.module == "") != (b.module == "") {
+			return a.module == ""
+		}
+		if a.module != b.module {
+			return a.module < b.module
+		}
+		if a.file != b.file {
+			return a.file < b.file
+		}
+		return a.name < b.name
+	}
+	for i := 1; i < len(cs); i++ {
+		for j := i; j > 0 && less(cs[j], cs[j-1]); j-- {
+			cs[j], cs[j-1] = cs[j-1], cs[j]
+		}
+	}
+	want := ""
+	for _, c := range cs {
+		want += "\ncondition " + c.name + "(x: int) {\n  true\n}\n"
+	}
+	zzverif.Assert(strings.HasSuffix(text, want), "conditions-in-documented-order")
 	zzverif.Reach("printed")
 }
